@@ -8,7 +8,7 @@ ALL = [f"C{i:02d}" for i in range(1, 21)]
 CHECKS = {
  "C11": dict(
   category="proof",
-  text="Lean 4 theorems over a model of Stat/ActionStat/LevelStat/ExtendedStat that is regenerated from simaple/core/base.py on every run: commutativity, associativity, identity, += equals +, sum equals repeated + (hence permutation invariance), multiplicative final-damage/defence-ignore, additivity of every other declared field and stack scaling quantified over the generated field list (so a dropped field falsifies a theorem). Arithmetic is exact (Rat); the float implementation is compared with tolerance.",
+  text="Lean 4 proof on effect programs regenerated from the source (Props/C11_Effects.lean): Stat.__add__/sum/stack, ActionStat.__add__, LevelStat.__add__/get_stat, ExtendedStat.__add__/compute_by_level never write their operands and return new blocks. Lean 4 theorems over a model of Stat/ActionStat/LevelStat/ExtendedStat that is regenerated from simaple/core/base.py on every run: commutativity, associativity, identity, += equals +, sum equals repeated + (hence permutation invariance), multiplicative final-damage/defence-ignore, additivity of every other declared field and stack scaling quantified over the generated field list (so a dropped field falsifies a theorem). Arithmetic is exact (Rat); the float implementation is compared with tolerance.",
   design_ref="DESIGN.md §4 C11",
   note="Trusted: Lean kernel, propext/Classical.choice/Quot.sound, py2lean translator (self-checked per run against the Python operators on random blocks), float ~ rational within 1e-9.",
   technique="Lean 4 proof over a model regenerated from source by py2lean (+ translator self-check)"),
@@ -56,7 +56,7 @@ CHECKS = {
   technique="Lean 4 proof (invariant over commands) + router-call observation"),
  "C17": dict(
   category="proof",
-  text="Lean 4 theorems over a star-force model whose tables, star caps, gear type codes and is_* predicates are regenerated from starforce_configuration.py/starforce.py/gear_type.py on every run: every lookup inside the cap is defined and non-negative (decide +kernel over the generated tables), star force is non-negative and non-decreasing in every field for EVERY well-formed gear meta, equals the running sum of per-star increments computed on the gear as enhanced so far, stars beyond the cap are refused; blueprint_additive/order_irrelevant/defined_iff_within_cap for gear blueprints over the generated Stat monoid, and (C17_Parts) the concrete parts: spell trace tables, scrolls, exceptional enhancement and BonusSpec regenerated from source, spellTrace_defined/nonneg on the five traceable type classes, concrete_blueprint_additive and concrete_blueprint_defined with ALL part contributions computed by the model. Compared with the real code on all shipped gears x stars 0..cap+1 (thorough) and random blueprints; non-mutation of blueprint/base gear observed by snapshot.",
+  text="Lean 4 proof on effect programs regenerated from the source (Props/C17_Effects.lean): GeneralizedGearBlueprint.build and PracticalGearBlueprint.build, with spell traces, scrolls, star force, the bonus factory and every bonus class, exceptional enhancement and potentials, write no object that existed before the call ('building never alters the blueprint or the base gear', on every heap, at every point of the call). Lean 4 theorems over a star-force model whose tables, star caps, gear type codes and is_* predicates are regenerated from starforce_configuration.py/starforce.py/gear_type.py on every run: every lookup inside the cap is defined and non-negative (decide +kernel over the generated tables), star force is non-negative and non-decreasing in every field for EVERY well-formed gear meta, equals the running sum of per-star increments computed on the gear as enhanced so far, stars beyond the cap are refused; blueprint_additive/order_irrelevant/defined_iff_within_cap for gear blueprints over the generated Stat monoid, and (C17_Parts) the concrete parts: spell trace tables, scrolls, exceptional enhancement and BonusSpec regenerated from source, spellTrace_defined/nonneg on the five traceable type classes, concrete_blueprint_additive and concrete_blueprint_defined with ALL part contributions computed by the model. Compared with the real code on all shipped gears x stars 0..cap+1 (thorough) and random blueprints; non-mutation of blueprint/base gear observed by snapshot.",
   design_ref="DESIGN.md §4 C17",
   note="Trusted: Lean kernel + standard axioms; py2lean table/predicate extraction (self-checked against live module objects); hand model of providers tied by exhaustive correspondence; part contributions of spell traces/bonus are inputs of the blueprint model.",
   technique="Lean 4 proof over generated tables (decide +kernel lifted) + exhaustive differential correspondence"),
